@@ -1,6 +1,7 @@
+#include <stdlib.h>
 #include "c17.contracts.h"
 H3Index h3v_w, h3v_w2, h3v_v;
-int64_t h3v_g, h3v_n;
+int64_t h3v_g, h3v_n, h3v_live0;
 
 void h_gridDiskDistances(void) {
     H3Index origin = nondet_u64();
@@ -31,4 +32,56 @@ void h_areNeighborCells(void) {
     int *out;
     H3Error e = areNeighborCells(a, b, out);
     __CPROVER_assert(0, "canary areNeighborCells");
+}
+
+void h_polygonToCellsExperimental(void) {
+    const GeoPolygon *polygon; int res = nondet_int(); uint32_t flags = nondet_u32(); int64_t size = nondet_i64(); H3Index *out;
+    H3Error e = polygonToCellsExperimental(polygon, res, flags, size, out);
+    __CPROVER_assert(0, "canary polygonToCellsExperimental");
+}
+void h_maxPolygonToCellsSizeExperimental(void) {
+    const GeoPolygon *polygon; int res = nondet_int(); uint32_t flags = nondet_u32(); int64_t *out;
+    H3Error e = maxPolygonToCellsSizeExperimental(polygon, res, flags, out);
+    __CPROVER_assert(0, "canary maxPolygonToCellsSizeExperimental");
+}
+
+/* ---- enforcing the iterator contracts themselves */
+static void mk_compact(IterCellsPolygonCompact *it) {
+    it->cell = nondet_u64(); it->error = nondet_u32(); it->_res = nondet_int(); it->_flags = nondet_u32();
+    it->_started = nondet_bool();
+    if (nondet_bool()) { it->_bboxes = malloc(sizeof(BBox)); __CPROVER_assume(it->_bboxes != NULL); h3v_live = h3v_live0 + 1; }
+    else { it->_bboxes = NULL; h3v_live = h3v_live0; }
+}
+void h_iterDestroyPolygonCompact(void) {
+    IterCellsPolygonCompact it; h3v_live0 = nondet_i64(); __CPROVER_assume(h3v_live0 >= 0 && h3v_live0 < 1000);
+    mk_compact(&it);
+    iterDestroyPolygonCompact(&it);
+    __CPROVER_assert(0, "canary iterDestroyPolygonCompact");
+}
+void h_iterDestroyPolygon(void) {
+    IterCellsPolygon it; h3v_live0 = nondet_i64(); __CPROVER_assume(h3v_live0 >= 0 && h3v_live0 < 1000);
+    it.cell = nondet_u64(); it.error = nondet_u32();
+    mk_compact(&it._cellIter);
+    iterDestroyPolygon(&it);
+    __CPROVER_assert(0, "canary iterDestroyPolygon");
+}
+void h_iterStepPolygon(void) {
+    IterCellsPolygon it; h3v_live0 = nondet_i64(); __CPROVER_assume(h3v_live0 >= 0 && h3v_live0 < 1000);
+    it.cell = nondet_u64(); it.error = nondet_u32();
+    it._childIter.h = nondet_u64(); it._childIter._parentRes = nondet_int(); it._childIter._skipDigit = nondet_int();
+    mk_compact(&it._cellIter);
+    h3v_failed = nondet_bool();
+    iterStepPolygon(&it);
+    __CPROVER_assert(0, "canary iterStepPolygon");
+}
+void h_iterInitPolygon(void) {
+    const GeoPolygon *polygon; int res = nondet_int(); uint32_t flags = nondet_u32();
+    IterCellsPolygon it = iterInitPolygon(polygon, res, flags);
+    __CPROVER_assert(0, "canary iterInitPolygon");
+}
+
+void h_iterInitParent_frame(void) {
+    IterCellsChildren it;
+    _iterInitParent(nondet_u64(), nondet_int(), &it);
+    __CPROVER_assert(0, "canary _iterInitParent frame");
 }
